@@ -249,8 +249,8 @@ def run_go(cases):
     inp = '\n'.join(' '.join([hx(t)] + [hx(d) for d in docs]) for t, docs in cases) + '\n'
     lines, rc, err = run_harness(['filter'], inp, timeout=1200)
     res = []
-    for i in range(0, len(lines) - 4, 5):
-        T, A, V, S, R = lines[i:i + 5]
+    for i in range(0, len(lines) - 5, 6):
+        T, A, V, S, R, H = lines[i:i + 6]
         d = {}
         f = T.split()[1:]
         d['tokens'] = None if f == ['PANIC'] else [(int(f[j]), bytes.fromhex(f[j + 1]) if f[j + 1] != '-' else b'') for j in range(0, len(f), 2)]
@@ -258,6 +258,7 @@ def run_go(cases):
         d['verdicts'] = ''.join(V.split()[1:])
         d['search'] = ''.join(S.split()[1:])
         d['again'] = d['verdicts'] if R.split()[1:] == ['same'] else ''.join(R.split()[1:])
+        d['history'] = ' '.join(H.split()[1:])
         res.append(d)
     return res, rc, err
 
